@@ -173,12 +173,12 @@ func Path(v ssa.Value) string {
 
 // Guard describes one guarded field.
 type Guard struct {
-	Field  string // access path of the field
-	Lock   string // access path of its lock
-	Alt    string // alternative sufficient lock ("" if none)
-	Handle bool   // effectively-final handle: the guarded thing is the USE (method call), not the load
-	Monitor bool  // the owning type's methods assume the caller holds the lock: blame the first outside caller
-	Why    string
+	Field   string // access path of the field
+	Lock    string // access path of its lock
+	Alt     string // alternative sufficient lock ("" if none)
+	Handle  bool   // effectively-final handle: the guarded thing is the USE (method call), not the load
+	Monitor bool   // the owning type's methods assume the caller holds the lock: blame the first outside caller
+	Why     string
 }
 
 // Access is one access to a guarded field.
@@ -219,16 +219,16 @@ type OrderEdge struct {
 
 // Analysis holds the whole-module result.
 type Analysis struct {
-	W       *world.World
-	Guards  []*Guard
-	Exempt  func(fn *ssa.Function) string // non-empty reason = constructor-phase function
+	W      *world.World
+	Guards []*Guard
+	Exempt func(fn *ssa.Function) string // non-empty reason = constructor-phase function
 	// IgnoreAcq: acquisitions of `lock` reached through this call site are not real (justified exception)
 	IgnoreAcq func(caller, callee *ssa.Function, lock string) bool
-	info    map[*ssa.Function]*fnInfo
-	wrapper map[*ssa.Function]*fnInfo
-	fns     []*ssa.Function
-	callers map[*ssa.Function][]site
-	entry   map[*ssa.Function]LS
+	info      map[*ssa.Function]*fnInfo
+	wrapper   map[*ssa.Function]*fnInfo
+	fns       []*ssa.Function
+	callers   map[*ssa.Function][]site
+	entry     map[*ssa.Function]LS
 }
 
 // syncOp classifies a call as a lock operation: returns lock path, op.
